@@ -56,6 +56,8 @@ def jobs(tier):
     out.append(("recheck-recheck.v2.other-piece-length", "job_rr", dict(version=2, P2=32768)))
     for version in (2, 3):
         out.append(("failed-recheck-then-recheck.v%d" % version, "job_rr_failed", dict(version=version, failed=True)))
+    for which in ("1", "2a", "3a"):
+        out.append(("failed-create-then-create.%s" % which, "job_failed_create", dict(which=which, dangling=True)))
     out.append(("verbose-command-then-rebuild", "job_verbose_rebuild", dict(verbose=True)))
     out.append(("edit-edit", "job_ee", {}))
     out.append(("create-magnet-edit-magnet", "job_magnet", {}))
@@ -64,6 +66,7 @@ def jobs(tier):
         out.append(("rebuild-rewrite-rebuild.v%d" % version, "job_rebuild_rewrite", dict(version=version)))
     for mv in ("1", "3"):
         out.append(("cli.create-with-config-then-create.v%s" % mv, "job_cli_config", dict(mv=mv)))
+        out.append(("cli.create-with-config-then-other-config.v%s" % mv, "job_cli_config", dict(mv=mv, second="config")))
     if not q:
         out.append(("create3.1", "job_ccc", dict(which="1")))
         out.append(("create3.3a", "job_ccc", dict(which="3a")))
@@ -257,6 +260,23 @@ def job_rr_failed(E, version, failed=True, _mutants=None):
     E.check(same_num(got, fresh), "C09.recheck-after-failed-recheck", "after a failed recheck (%r) the next one says %r, a fresh process %r" % (first, got, fresh))
 
 
+def job_failed_create(E, which, dangling=True, _mutants=None):
+    """A create that fails part-way through the directory walk (a dangling symbolic link two levels down), the cause
+    removed, then the same create again in the same process: equal to a fresh process."""
+    P = 16384
+    fs, sizes = base_fs(E, P)
+    fs.add("/data/name/sub/deep/c", ("f", 2), 7)
+    fs.add_link("/data/name/sub/deep/dangling", "/nowhere/at/all")
+    w = World(fs, mutants=_mutants)
+    first = do_create(E, w, which, P, "1")
+    E.witness("first create failed", isinstance(first, tuple))
+    del fs.links["/data/name/sub/deep/dangling"]
+    got = do_create(E, w, which, P, "2")
+    fresh = do_create(E, World(fs.clone(), mutants=_mutants), which, P, "fresh")
+    E.check(same(got, fresh), "C09.create-after-failed-create",
+            "after a failed create (%r) the next one gives %s, a fresh process %s" % (first, _brief(got), _brief(fresh)))
+
+
 def job_verbose_rebuild(E, verbose=True, _mutants=None):
     """A command run with -v (debug logging switched on for the rest of the process), then a rebuild whose search
     directories hold two same-named, same-sized candidates: the result equals a fresh process's."""
@@ -425,7 +445,7 @@ def job_rebuild_rewrite(E, version, _mutants=None):
     E.check(d2 == d3 and all(fs.files[p].content == fsf.files[p].content for p in d2), "C09.rebuild-after-rewrite.tree", "%r vs %r" % (d2, d3))
 
 
-def job_cli_config(E, mv, _mutants=None):
+def job_cli_config(E, mv, second=None, _mutants=None):
     """Two creates through the command line entry point in one process: the first takes trackers and seeds from a
     configuration file, the second gives none."""
     P = 16384
@@ -434,6 +454,10 @@ def job_cli_config(E, mv, _mutants=None):
                                                    "comment": "from config", "private": "true"}}))
     w = World(fs, mutants=_mutants)
     argv2 = ["create", "--prog", "0", "--meta-version", mv, "--piece-length", "14", "-o", "/out/two.torrent", "/data/name"]
+    if second == "config":
+        # the second create reads another configuration file that sets fewer options
+        fs.add_token("/cfg/u.ini", ("INI", {"config": {"comment": "second config"}}))
+        argv2 = argv2[:-1] + ["--config", "--config-path", "/cfg/u.ini", "/data/name"]
     try:
         cli = w.mod("cli")
         cli.execute(["create", "--prog", "0", "--meta-version", mv, "--piece-length", "14", "--config", "--config-path", "/cfg/t.ini",
@@ -515,6 +539,10 @@ def _replay_cli_config(params, model, workdir, seed):
     import torrentfile.cli  # noqa: F401
     cli = sys.modules["torrentfile.cli"]
     argv2 = ["create", "--prog", "0", "--meta-version", mv, "--piece-length", "14", "-o", workdir + "/out/two.torrent", root]
+    if params.get("second") == "config":
+        with open(workdir + "/u.ini", "w") as f:
+            f.write("[config]\ncomment = second config\n")
+        argv2 = argv2[:-1] + ["--config", "--config-path", workdir + "/u.ini", root]
 
     def n(m):
         m = {k: v for k, v in m.items() if k != "creation date"}
@@ -575,6 +603,55 @@ def _replay_rr_failed(params, model, workdir, seed):
     fresh = _fresh(code, workdir, mpath, cpath)
     g = list(got) if isinstance(got, tuple) else got
     return [] if g == fresh else ["C09.recheck-after-failed-recheck (%r vs %r)" % (g, fresh)]
+
+
+def _replay_failed_create(params, model, workdir, seed):
+    import io
+    import contextlib
+    import json
+    root = os.path.join(workdir, "data", "name")
+    refconc.write_file(os.path.join(root, "a"), refconc.content(("f", 0), int(model.get("s0", 0)), seed))
+    refconc.write_file(os.path.join(root, "sub", "b"), refconc.content(("f", 1), int(model.get("s1", 0)), seed))
+    refconc.write_file(os.path.join(root, "sub", "deep", "c"), refconc.content(("f", 2), 7, seed))
+    link = os.path.join(root, "sub", "deep", "dangling")
+    os.symlink("/nowhere/at/all", link)
+    mods = cr.real_torrentfile()
+    T = mods["torrentfile.torrent"]
+    cls, mv = cr.CLS[params["which"]]
+    kw = dict(path=root, piece_length=16384, progress=0)
+    if mv:
+        kw["meta_version"] = mv
+
+    def n(m):
+        m = {k: v for k, v in m.items() if k != "creation date"}
+        return json.loads(json.dumps(_jsonable(m)))
+    try:
+        with contextlib.redirect_stdout(io.StringIO()):
+            try:
+                getattr(T, cls)(**kw)
+            except Exception:  # noqa: BLE001
+                pass
+            os.remove(link)
+            got = n(getattr(T, cls)(**kw).meta)
+    except Exception as ex:  # noqa: BLE001
+        got = ["EXC", type(ex).__name__]
+    code = ("import json, io, contextlib\nimport torrentfile.torrent as T\n"
+            "def j(x):\n"
+            "    if isinstance(x, dict): return sorted((repr(k), j(v)) for k, v in x.items())\n"
+            "    if isinstance(x, (list, tuple)): return [j(v) for v in x]\n"
+            "    if isinstance(x, (bytes, bytearray)): return bytes(x).hex()\n"
+            "    return x\n"
+            "kw = json.loads(sys.argv[2])\n"
+            "try:\n"
+            "    with contextlib.redirect_stdout(io.StringIO()):\n"
+            "        m = getattr(T, sys.argv[1])(**kw).meta\n"
+            "    m = {k: v for k, v in m.items() if k != 'creation date'}\n"
+            "    out = j(m)\n"
+            "except Exception as ex:\n"
+            "    out = ['EXC', type(ex).__name__]\n"
+            "sys.stdout.write(json.dumps(out))\n")
+    fr = _fresh(code, workdir, cls, json.dumps(kw))
+    return [] if got == fr else ["C09.create-after-failed-create"]
 
 
 def _replay_verbose_rebuild(params, model, workdir, seed):
@@ -652,6 +729,8 @@ def replay(params, model, notes, workdir, seed):
         return _replay_rr_failed(params, model, workdir, seed)
     if params.get("verbose"):
         return _replay_verbose_rebuild(params, model, workdir, seed)
+    if params.get("dangling"):
+        return _replay_failed_create(params, model, workdir, seed)
     if set(params) == {"version"} and notes.get("shape") == "flat2" and "t0" not in model:
         return _replay_rebuild_rewrite(params, model, workdir, seed)
     if "which2" not in params and "which" not in params and "mut" not in params and "version" not in params:
